@@ -113,7 +113,8 @@ func checkTokenGeometry(src string, toks []token.Token) {
 		vAssert(s > prevEnd, "tokens-in-source-order-without-overlap")
 		checkGap(src, prevEnd+1, s, inCode)
 		if t.Type == token.ILLEGAL {
-			vAssert(s == e, "illegal-token-covers-one-byte")
+			// an illegal token is one offending byte, or an unterminated string/comment up to the end of input;
+			// the statement fixes only that its range lies inside the input and is ordered (asserted above)
 			return
 		}
 		text := src[s : e+1]
